@@ -780,6 +780,7 @@ def check_run(ri, run, fresh):
         if finite and math.isfinite(pi_b):
             la = (pi_p - pi_b) + h
             ap = math.exp(min(0.0, la))
+            d["la_ref"] = la
         else:
             ap = 0.0
         d["ap_ref"] = ap
@@ -826,7 +827,9 @@ def check_run(ri, run, fresh):
                     through = ["gmrf.precision"]
                 # the known round-trip defect: only the leaves under the operator's transformed
                 # parameters moved, and in constrained space they are back within a few ulp
-                roundtrip = bool(through) and set(bad) <= {views[p][0] for p in through} and \
+                tiny = all(abs(a - b) <= 1e-13 * max(1.0, abs(b))
+                           for pid in bad for a, b in zip(c["after"][pid], c["before"][pid]))
+                roundtrip = bool(through) and tiny and set(bad) <= {views[p][0] for p in through} and \
                     set(badw) <= set(through) and \
                     all(_ulps(c["wafter"][p], c["wbefore"][p]) is not None and
                         _ulps(c["wafter"][p], c["wbefore"][p]) <= 4 for p in through)
@@ -1109,12 +1112,19 @@ def fin(v):
     return v if (v is not None and math.isfinite(v)) else None
 
 
+def extreme(c, d):
+    """exp(log_alpha) underflows in double precision (the implementation's acceptance probability is
+    exactly 0): the exact model value 2^(-huge) would make every later interval operation align
+    mantissas over that exponent range.  Such records are checked on the implementation side only."""
+    return d.get("la_ref", 0.0) < -700.0 or any(abs(v) > 1e200 for vs in c["proposed"].values() for v in vs)
+
+
 def record_case(run, k, c, d):
     """Coq expression replaying record k through `step` (single-operator configuration)."""
     tg = run["target"]
     info = run["ops"][c["op"]]
     cfg = coq_cfg(info, c["state_before"], d["slots"])
-    if cfg is None or d["skip"] or not math.isfinite(d["pi_before"]):
+    if cfg is None or d["skip"] or not math.isfinite(d["pi_before"]) or extreme(c, d):
         return None
     b = "true" if c["decision"] == "accept" else "false"
     return (f"replay1 {b} {cfg} {ilist(flatten(tg, c['before']))} {iq(d['pi_before'])} "
@@ -1135,7 +1145,7 @@ def chain_case(run, derived, n):
         ops.append(coq_opstate(info["state"]))
     ds, bs = [], []
     for c, d in zip(recs, derived):
-        if d["skip"] or not math.isfinite(d["pi_before"]):
+        if d["skip"] or not math.isfinite(d["pi_before"]) or extreme(c, d):
             return None
         ds.append(coq_draws(c["op"], c, d, d["slots"], tg, (fin(d["pi_prop"]), fin(d["pi_after"]))))
         bs.append("true" if c["decision"] == "accept" else "false")
@@ -1341,7 +1351,8 @@ def run(tier, seed, replay=None):
         for k, (c, d) in enumerate(zip(run_["records"], derived)):
             e = record_case(run_, k, c, d)
             if e is None:
-                key = c["kind"] + (":through-transform" if d.get("skip") else ":tuner-not-modelled")
+                key = c["kind"] + (":through-transform-or-degenerate" if d.get("skip") else
+                                   ":acceptance-underflows" if extreme(c, d) else ":tuner-not-modelled")
                 skipped[key] = skipped.get(key, 0) + 1
                 continue
             exprs.append(e)
@@ -1355,7 +1366,14 @@ def run(tier, seed, replay=None):
     res = []
     if proved and exprs:
         try:
-            res = C.run_cases(PID, HEADER, exprs, shard=max(8, len(exprs) // 32 + 1), timeout=1200)
+            try:
+                res = C.run_cases(PID, HEADER, exprs, shard=max(8, len(exprs) // 32 + 1), timeout=1200)
+            except RuntimeError as e:
+                if "Error" in str(e):
+                    raise
+                # coqc died without a Coq error (killed: machine shared with other checks): once more, gently
+                C.log(f"[{PID}] model evaluation interrupted ({str(e)[:80]}...), retrying with 4 workers")
+                res = C.run_cases(PID, HEADER, exprs, shard=max(8, len(exprs) // 32 + 1), timeout=2400, workers=4)
         except RuntimeError as e:
             rep.violation("C15:model-eval-failed", str(e)[:300], dict(error=str(e)[-2000:]), False)
             res = []
